@@ -1,8 +1,92 @@
 import RoaringModel.Driver.Core
-/-! Driver handlers: family `Algebra` (stub — replaced when the family's model exists) -/
+import RoaringModel.Ops
+/-! Driver handlers: family `Algebra` — binary set operations in every form (C02), relations and
+    cardinality-only operations (C08).
+
+`or|and|sub|xor <form> bD bL bR` with `form ∈ {oo, or, ro, rr, ao, ar}`: the result goes to `bD`; for the
+assigning forms `bL` is updated too.  After a form with borrowed operands the element hash of each
+borrowed operand is printed (`l=` / `r=`), computed from the (unchanged) model value — the harness prints
+the same from the real operands *after* the operation.  The part after ` | ` is a coverage tag (store kinds
+per chunk pair), not compared in `set` mode. -/
 namespace Roaring.Driver
 open Roaring
 
-def opsAlgebra : Handler := fun _ _ => none
+def parseBinOp : String → Option Bitmap.BinOp
+  | "or" => some .or | "and" => some .and | "sub" => some .sub | "xor" => some .xor
+  | _ => none
+
+def parseForm : String → Option Bitmap.Form
+  | "oo" => some .oo | "or" => some .or_ | "ro" => some .ro | "rr" => some .rr | "ao" => some .ao | "ar" => some .ar
+  | _ => none
+
+def specBinop : Bitmap.BinOp → List Nat → List Nat → List Nat
+  | .or => Spec.sOr | .and => Spec.sAnd | .sub => Spec.sSub | .xor => Spec.sXor
+
+def elemHash (b : Bitmap) : String := hex64 (fnv (Bitmap.elems b))
+
+def kindChar : Store → Char
+  | .array _ => 'A'
+  | .bitmap _ => 'B'
+
+/-- coverage tag of a binary operation (representation part, after ` | `): one cell `LR>D` per pair of the
+    merge-join of the operands' chunks — store kind on the left / right (`-` = key absent) and of the
+    result chunk (`-` = no such chunk in the result) -/
+def cellTags (l r d : Bitmap) : String :=
+  ",".intercalate ((Bitmap.pairs l r).map fun p =>
+    let key := match p with
+      | (some c, _) => c.key
+      | (none, some c) => c.key
+      | (none, none) => 0
+    let lk := match p.1 with | some c => kindChar c.store | none => '-'
+    let rk := match p.2 with | some c => kindChar c.store | none => '-'
+    let dk := match d.find? (fun c => c.key == key) with | some c => kindChar c.store | none => '-'
+    String.ofList [lk, rk, '>', dk])
+
+def opsAlgebra : Handler := fun st toks =>
+  let b? (t : String) := (parseSlot 'b' t).bind fun i => (st.getB i).map fun s => (i, s)
+  match toks with
+  | [op, form, d, l, r] => do
+    let op ← parseBinOp op; let form ← parseForm form
+    let di ← (parseSlot 'b' d).filter (· < 64)
+    let (li, ls) ← b? l; let (_, rs) ← b? r
+    let res : Slot := ⟨Bitmap.binop op form ls.m rs.m, specBinop op ls.s rs.s⟩
+    let lh := " l=" ++ elemHash ls.m
+    let rh := " r=" ++ elemHash rs.m
+    let out := match form with
+      | .oo => "ok" | .ao => "ok"
+      | .or_ => "ok" ++ rh | .ar => "ok" ++ rh
+      | .ro => "ok" ++ lh
+      | .rr => "ok" ++ lh ++ rh
+    let st := match form with
+      | .ao => st.setB li res | .ar => st.setB li res
+      | _ => st
+    pure (st.setB di res, out ++ " | p=" ++ cellTags ls.m rs.m res.m)
+  | ["is_subset", l, r] => do
+    let (_, x) ← b? l; let (_, y) ← b? r
+    pure (st, specMark (showBool (Bitmap.isSubset x.m y.m)) (showBool (Spec.isSubset x.s y.s)))
+  | ["is_superset", l, r] => do
+    let (_, x) ← b? l; let (_, y) ← b? r
+    pure (st, specMark (showBool (Bitmap.isSuperset x.m y.m)) (showBool (Spec.isSuperset x.s y.s)))
+  | ["is_disjoint", l, r] => do
+    let (_, x) ← b? l; let (_, y) ← b? r
+    pure (st, specMark (showBool (Bitmap.isDisjoint x.m y.m)) (showBool (Spec.isDisjoint x.s y.s)))
+  | ["inter_len", l, r] => do
+    let (_, x) ← b? l; let (_, y) ← b? r
+    pure (st, specMark (toString (Bitmap.interLen x.m y.m)) (toString (Spec.interLen x.s y.s)))
+  | ["union_len", l, r] => do
+    let (_, x) ← b? l; let (_, y) ← b? r
+    pure (st, specMark (toString (Bitmap.unionLen x.m y.m)) (toString (Spec.unionLen x.s y.s)))
+  | ["diff_len", l, r] => do
+    let (_, x) ← b? l; let (_, y) ← b? r
+    -- `none`: the plain `-` of ops.rs:78 overflows — a panic with overflow checks (`chk`), wrap-around without
+    let m := match Bitmap.diffLen x.m y.m with
+      | some n => toString n
+      | none => if st.dbg then "panic"
+                else toString (Bitmap.wrappingSub (Bitmap.len x.m) (Bitmap.interLen x.m y.m))
+    pure (st, specMark m (toString (Spec.diffLen x.s y.s)))
+  | ["xor_len", l, r] => do
+    let (_, x) ← b? l; let (_, y) ← b? r
+    pure (st, specMark (toString (Bitmap.xorLen x.m y.m)) (toString (Spec.xorLen x.s y.s)))
+  | _ => none
 
 end Roaring.Driver
